@@ -360,6 +360,8 @@ def run(rep):
 
     # the optimised forms of and/or must keep the operand order the tables above depend on (shared with C01)
     import core
+    core.import_rules(rep, "c01", {"LINEAR"})
+    core.import_rules(rep, "c03", {"L-MATRIX"}, key_prefixes=("L-MATRIX/lookup-", "L-MATRIX/one-cell-per-column", "L-MATRIX/pass-agreement"))
     core.import_rules(rep, "c01", {"ORDER-AND", "LAW"}, key_prefixes=("ORDER-AND/shake_0/", "LAW/shake_0/flatten", "LAW/shake_0/group-of-one", "LAW/or-symmetric", "LAW/shake_1/nested-merge"))
     rep.floor("TRI-OR", 2 * KMAX + 3)
     rep.floor("TRI-AND", 2 * KMAX + 3)
